@@ -31,13 +31,13 @@ theorem abs_arr_of_kind (n : NodeM) (hr : n.repOk = true) (hk : n.kind = .arr) :
 theorem get_not_obj (t : Tree) (k : Key) (h : t.kind ≠ .obj) : t.stepHere (.get k) = (.err .unsupported, t) := by
   cases t <;> simp [Tree.kind] at h <;> rfl
 
-theorem here_get (n : NodeM) (k : Key) (hr : n.repOk = true) (hn : n.isRaw = false)
-    (hs : n.keySafe k = true) : Refines (n.stepHere (.get k)) (n.abs.stepHere (.get k)) := by
+theorem here_get (n : NodeM) (k : Key) (hr : n.repOk = true) (hn : n.isRaw = false) :
+    Refines (n.stepHere (.get k)) (n.abs.stepHere (.get k)) := by
   have hcr := checkRaw_of_not_raw n hn
   simp only [NodeM.stepHere, hcr]
   by_cases hk : n.kind = .obj
   · rw [if_neg (by simp [hk])]
-    obtain ⟨s1, s2, s3, s4⟩ := skipKey_spec n k hr hn hk hs
+    obtain ⟨s1, s2, s3, s4⟩ := skipKey_spec n k hr hn hk
     cases hf : (n.skipKey k).2 with
     | «at» j =>
       simp only [hf] at s4 ⊢
@@ -53,7 +53,6 @@ theorem here_get (n : NodeM) (k : Key) (hr : n.repOk = true) (hn : n.isRaw = fal
       have e : n.abs.stepHere (.get k) = (.nx, n.abs) := by
         rw [ha]; simp only [Tree.stepHere, hfk]
       rw [e]; exact ⟨rfl, s1, s2⟩
-    | panic => simp only [hf] at s4
   · rw [if_pos (by simpa using hk)]
     have : n.abs.kind ≠ .obj := by rw [← kind_abs n hr]; exact hk
     rw [get_not_obj _ _ this]
@@ -125,7 +124,7 @@ theorem here_len (n : NodeM) (hr : n.repOk = true) (hn : n.isRaw = false) (hs : 
     exact ⟨by simp [NodeM.abs, Tree.stepHere, absElems_length, h2], rfl, hr⟩
   | obj l st ix =>
     have h2 : l = countLive pairLive st := by
-      simp only [NodeM.repOk, Bool.and_eq_true, decide_eq_true_eq] at hr; exact hr.2
+      simp only [NodeM.repOk, Bool.and_eq_true, decide_eq_true_eq] at hr; exact hr.1.2
     exact ⟨by simp [NodeM.abs, Tree.stepHere, absPairs_length, h2], rfl, hr⟩
   | arrLazy pre rest => simp at hs
   | objLazy pre rest => simp at hs
@@ -189,8 +188,8 @@ theorem setKid_obj_key (kvs : List (Key × Tree)) (k : Key) (i : Nat) (v : Tree)
   obtain ⟨w, hw⟩ := findKey_getElem k kvs i h
   simp [Tree.setKid, hw]
 
-theorem here_set (n : NodeM) (k : Key) (v : Tree) (hr : n.repOk = true) (hn : n.isRaw = false)
-    (hs : n.keySafe k = true) : Refines (n.stepHere (.set k v)) (n.abs.stepHere (.set k v)) := by
+theorem here_set (n : NodeM) (k : Key) (v : Tree) (hr : n.repOk = true) (hn : n.isRaw = false) :
+    Refines (n.stepHere (.set k v)) (n.abs.stepHere (.set k v)) := by
   have hcr := checkRaw_of_not_raw n hn
   have hka := kind_abs n hr
   simp only [NodeM.stepHere, hcr]
@@ -201,11 +200,10 @@ theorem here_set (n : NodeM) (k : Key) (v : Tree) (hr : n.repOk = true) (hn : n.
       rw [hkd] at hka; cases h : n.abs <;> simp [h, Tree.kind] at hka; rfl
     rw [this]
     exact ⟨rfl, by simp [NodeM.abs, absPairs, mkPair, NodeM.live, Tree.stepHere],
-      by simp [NodeM.repOk, repPairs, mkPair, countLive, List.filter_cons]⟩
+      by simp [NodeM.repOk, repPairs, mkPair, countLive, List.filter_cons, ixOk]⟩
   | obj =>
-    obtain ⟨s1, s2, s3, s4⟩ := skipKey_spec n k hr hn hkd hs
+    obtain ⟨s1, s2, s3, s4⟩ := skipKey_spec n k hr hn hkd
     cases hf : (n.skipKey k).2 with
-    | panic => simp only [hf] at s4
     | «at» j =>
       simp only [hf] at s4 ⊢
       obtain ⟨i, kvs, hfa, ha, hfk⟩ := s4
@@ -226,6 +224,7 @@ theorem here_set (n : NodeM) (k : Key) (v : Tree) (hr : n.repOk = true) (hn : n.
       rw [e, hshape]
       rw [hshape] at s1 s2
       simp only [NodeM.repOk, Bool.and_eq_true, decide_eq_true_eq] at s2
+      obtain ⟨⟨s2r, s2l⟩, s2x⟩ := s2
       simp only [NodeM.abs] at s1
       rw [ha] at s1
       have hkvs : absPairs st = kvs := by injection s1
@@ -235,12 +234,26 @@ theorem here_set (n : NodeM) (k : Key) (v : Tree) (hr : n.repOk = true) (hn : n.
           rw [← hkvs]; apply List.eq_nil_of_length_eq_zero; rw [absPairs_length]; omega
         subst this
         exact ⟨rfl, by simp [NodeM.abs, absPairs, mkPair, NodeM.live],
-          by simp [NodeM.repOk, repPairs, mkPair, countLive, List.filter_cons]⟩
+          by simp [NodeM.repOk, repPairs, mkPair, countLive, List.filter_cons, ixOk]⟩
       · simp only [hl, if_false]
+        have hnone : firstLiveKey k st = none := by
+          have := firstLiveKey_findKey k st
+          cases hq : firstLiveKey k st with
+          | none => rfl
+          | some p =>
+            simp only [hq] at this
+            obtain ⟨_, _, _, _, h4⟩ := this
+            rw [hkvs, hfk] at h4; simp at h4
+        have hix : ixOk (st ++ [mkPair k (NodeM.raw v false)])
+            (ix.map (fun m => ixSet m (some k) st.length)) = true := by
+          cases ix with
+          | none => rfl
+          | some m => exact ixOk_push st m k _ s2r s2x hnone
         refine ⟨rfl, ?_, ?_⟩
         · simp [NodeM.abs, absPairs_append, absPairs, mkPair, NodeM.live, hkvs]
-        · simp [NodeM.repOk, repPairs_append, repPairs, mkPair, s2.1, countLive_append, countLive, List.filter_cons]
-          have := s2.2; simp [countLive] at this; omega
+        · simp [NodeM.repOk, repPairs_append, repPairs, mkPair, s2r, countLive_append, countLive, List.filter_cons, hix]
+          refine ⟨by have := s2l; simpa [countLive] using this, ?_⟩
+          simpa [mkPair] using hix
   | arr => rw [set_other _ _ _ (by rw [← hka, hkd]; simp) (by rw [← hka, hkd]; simp)]; exact ⟨rfl, rfl, hr⟩
   | bool => rw [set_other _ _ _ (by rw [← hka, hkd]; simp) (by rw [← hka, hkd]; simp)]; exact ⟨rfl, rfl, hr⟩
   | num => rw [set_other _ _ _ (by rw [← hka, hkd]; simp) (by rw [← hka, hkd]; simp)]; exact ⟨rfl, rfl, hr⟩
@@ -279,15 +292,6 @@ theorem absElems_kill (st : List NodeM) (j : Nat) (c : NodeM) (h : st[j]? = some
   · unfold countLive at hlt ⊢
     rw [hf, List.length_eraseIdx]; unfold countLive; rw [if_pos hlt]
 
-theorem keySafe_skipAll (n : NodeM) (k : Key) (h : n.keySafe k = true) : n.skipAll.keySafe k = true := by
-  cases n with
-  | objLazy pre rest =>
-    simp only [NodeM.keySafe, decide_eq_true_eq] at h
-    have : ¬ (pre ++ rest.map rawPair).length > 16 := by simp; omega
-    simp [NodeM.skipAll, mkObject, NodeM.keySafe, this]; omega
-  | arrLazy pre rest => simp [NodeM.skipAll, NodeM.keySafe]
-  | _ => simpa [NodeM.skipAll] using h
-
 theorem skipAll_obj_shape (n : NodeM) (hk : n.kind = .obj) (hn : n.isRaw = false) :
     ∃ l st ix, n.skipAll = .obj l st ix := by
   cases n <;> simp [NodeM.kind, NodeM.isRaw] at hk hn
@@ -307,8 +311,8 @@ theorem skipKey_obj_fst (l : Nat) (st : List PairM) (ix : Option Index) (k : Key
 theorem unset_other (t : Tree) (k : Key) (h1 : t.kind ≠ .obj) : t.stepHere (.unset k) = (.err .unsupported, t) := by
   cases t <;> simp [Tree.kind] at h1 <;> rfl
 
-theorem here_unset (n : NodeM) (k : Key) (hr : n.repOk = true) (hn : n.isRaw = false)
-    (hs : n.keySafe k = true) : Refines (n.stepHere (.unset k)) (n.abs.stepHere (.unset k)) := by
+theorem here_unset (n : NodeM) (k : Key) (hr : n.repOk = true) (hn : n.isRaw = false) :
+    Refines (n.stepHere (.unset k)) (n.abs.stepHere (.unset k)) := by
   have hcr := checkRaw_of_not_raw n hn
   have hka := kind_abs n hr
   simp only [NodeM.stepHere, hcr]
@@ -316,13 +320,11 @@ theorem here_unset (n : NodeM) (k : Key) (hr : n.repOk = true) (hn : n.isRaw = f
   · rw [if_neg (by simp [hk])]
     obtain ⟨a1, a2⟩ := skipAll_spec n hr
     obtain ⟨l, st, ix, hshape⟩ := skipAll_obj_shape n hk hn
-    have hs' := keySafe_skipAll n k hs
-    rw [hshape] at a1 a2 hs'
-    obtain ⟨s1, s2, s3, s4⟩ := skipKey_spec (.obj l st ix) k a2 rfl rfl hs'
+    rw [hshape] at a1 a2
+    obtain ⟨s1, s2, s3, s4⟩ := skipKey_spec (.obj l st ix) k a2 rfl rfl
     rw [hshape]
     have hfst := skipKey_obj_fst l st ix k
     cases hf : ((NodeM.obj l st ix).skipKey k).2 with
-    | panic => simp only [hf] at s4
     | no =>
       simp only [hf] at s4 ⊢
       obtain ⟨⟨kvs, ha, hfk⟩, _⟩ := s4
@@ -348,12 +350,13 @@ theorem here_unset (n : NodeM) (k : Key) (hr : n.repOk = true) (hn : n.isRaw = f
         obtain ⟨k1, k2⟩ := absPairs_kill st j p hp hpl
         simp only [NodeM.logIdx] at c5
         simp only [NodeM.repOk, Bool.and_eq_true, decide_eq_true_eq] at a2
+        obtain ⟨⟨a2r, a2l⟩, a2x⟩ := a2
         have hkvs : absPairs st = kvs := by
           simp only [NodeM.abs] at a1; rw [ha] at a1; injection a1
         refine ⟨rfl, ?_, ?_⟩
         · simp only [NodeM.abs, k1, c5, hkvs]
-        · simp only [NodeM.repOk, Bool.and_eq_true, decide_eq_true_eq, k2, a2.2, and_true]
-          exact repPairs_set st j deadPair a2.1 (by simp [deadPair, pairLive, NodeM.live]) (by simp [deadPair])
+        · simp only [NodeM.repOk, Bool.and_eq_true, decide_eq_true_eq, k2, a2l, ixOk_kill st ix j a2x, and_true]
+          exact repPairs_set st j deadPair a2r (by simp [deadPair, pairLive, NodeM.live]) (by simp [deadPair])
   · rw [if_pos (by simpa using hk), unset_other _ _ (by rw [← hka]; exact hk)]
     exact ⟨rfl, rfl, hr⟩
 
